@@ -13,7 +13,10 @@ What is new w.r.t. the base table (lru/mru):
   - m_lfu_list, std::multimap<size_t, list iterator>: iterators are `option nat` (the list node
     of the pair; None = end()/singular): begin(), it->first, it->second, emplace(count, list
     iterator) (at the upper bound of count, returns the iterator of the new pair),
-    erase(iterator).
+    erase(iterator).  `*it` is the pair of the node (kind mmref = the node; mm_second: UB for end() / an
+    erased node); `const auto& p = *it` names it, p.first / p.second read through it when they are
+    evaluated (mm_deref / mm_second of that node); `const auto [c, pos] = *it` (by value) copies both
+    components into locals at the declaration.
   - size_t + size_t, std::list::size(), std::make_pair(value cell, count) converted to
     std::optional<std::pair<V, size_t>>, the empty optional of that type.
 """
@@ -59,6 +62,8 @@ class Ext(cpp2coq.Tr):
             return "liter"
         if t.startswith("std::optional<std::pair<ValT, size_t>>"):
             return "optvaluse"
+        if t.startswith("std::pair<unsigned long, std::_List_iterator<") and t.endswith("&"):
+            return "mmref"      # (const) reference to a pair of m_lfu_list: the node it designates
         return None
 
     # ---- expressions
@@ -70,6 +75,10 @@ class Ext(cpp2coq.Tr):
                 # *it : the element stored in the node; binding a reference to it needs a dereferenceable iterator
                 x = self.fresh("d")
                 return b + ["do %s <- l_deref %s %s;" % (x, self.fld("list", st[0]), t)], x, "eref"
+            if kd == "mmit" and c["t"].replace("const ", "").startswith("std::pair<unsigned long, std::_List_iterator<"):
+                # *it : the pair of the multimap node it points at (kind mmref = the node); end() / an erased node: UB
+                x = self.fresh("nd")
+                return b + ["do %s <- mm_second %s %s;" % (x, self.fld("mmap", st[0]), t)], x, "mmref"
             raise Unsupported("operator* on %s giving %s" % (kd, c["t"]))
         if k == "op" and c["n"] == "operator->":
             b, t, kd, commit = self.peek_E(c["a"][0], st, env)
@@ -79,7 +88,11 @@ class Ext(cpp2coq.Tr):
             return None
         if k == "member":
             b, t, kd, commit = self.peek_E(c["a"][0], st, env)
-            if (kd, c["n"]) in (("mit->", "second"), ("mmit->", "first"), ("mmit->", "second")) or \
+            if kd == "mmref" and c["n"] in ("first", "second"):
+                # a read through a reference to the pair of node t (UB when the node has been erased meanwhile)
+                commit()
+                b, t, kd = b, "(Some %s)" % t, "mmit->"
+            elif (kd, c["n"]) in (("mit->", "second"), ("mmit->", "first"), ("mmit->", "second")) or \
                     (kd == "eref" and self.ef_by_cpp.get(c["n"], (None, None))[1] == "mmit"):
                 commit()
             else:
@@ -167,6 +180,25 @@ class Ext(cpp2coq.Tr):
             self.n = n1
             st[0] = st2[0]
         return b, t, kd, commit
+
+    def sbind(self, v, st, env):
+        """const auto [count, pos] = *it;  for an iterator of m_lfu_list, BY VALUE (the declared type is the pair, not
+        a reference to it): *it (UB for end() / an erased node), then the two components are copied into locals"""
+        names, init = list(v["n"]), v["a"]
+        tv = v["t"].replace("const ", "").strip()
+        if len(init) == 1 and len(names) == 2 and init[0]["k"] == "op" and init[0]["n"] == "operator*" \
+                and tv.startswith("std::pair<unsigned long, std::_List_iterator<") and not tv.endswith("&"):
+            b, t, kd, commit = self.peek_E(init[0], st, env)
+            if kd == "mmref":
+                commit()
+                cnt, nd = self.fresh("cnt"), self.fresh("nd")
+                a1, a2 = self.fresh("v_" + names[0] + "_"), self.fresh("v_" + names[1] + "_")
+                env[names[0]] = (a1, "nat")
+                env[names[1]] = (a2, "liter")
+                mm = self.fld("mmap", st[0])
+                return b + ["do %s <- mm_deref %s (Some %s);" % (cnt, mm, t), "do %s <- mm_second %s (Some %s);" % (nd, mm, t),
+                            "let %s := %s in" % (a1, cnt), "let %s := (It %s) in" % (a2, nd)]
+        return super().sbind(v, st, env)
 
     # ---- statements
     def X_ext(self, c, st, env):
